@@ -105,6 +105,46 @@ def make_tensor(case):
     return rnd(shape)
 
 
+LAYOUTS = ["C", "F", "revT", "perm", "strided", "neg", "readonly_F"]
+
+
+def with_layout(arr, layout, seed=0):
+    """A tensor with the SAME shape and entries as `arr` (a C-ordered array) but another memory layout.
+
+    C: row-major (as generated); F: column-major, owning its data; revT: the full axis reversal view of a row-major array
+    (column-major, not owning); perm: view of a row-major array by a random axis permutation (in general neither C nor F
+    contiguous); strided: every second element of a larger buffer along every axis; neg: negative strides along every
+    axis; readonly_F: column-major and not writeable.  The container is allocated with the wanted strides and filled by
+    value assignment; the result is checked to be entrywise equal to `arr`."""
+    arr = np.asarray(arr)
+    n = arr.ndim
+    if layout == "C" or layout is None or n == 0:
+        return arr
+    if layout in ("F", "readonly_F"):
+        out = np.empty(arr.shape, dtype=arr.dtype, order="F")
+    elif layout == "revT":
+        out = np.empty(arr.shape[::-1], dtype=arr.dtype, order="C").T
+    elif layout == "perm":
+        perm = list(range(n))
+        np.random.RandomState(seed).shuffle(perm)
+        base = np.empty(tuple(arr.shape[a] for a in perm), dtype=arr.dtype, order="C")
+        inv = [perm.index(a) for a in range(n)]
+        out = base.transpose(inv)
+    elif layout == "strided":
+        base = np.zeros(tuple(2 * d + 1 for d in arr.shape), dtype=arr.dtype)
+        out = base[tuple(slice(1, 2 * d + 1, 2) for d in arr.shape)]
+    elif layout == "neg":
+        base = np.empty(arr.shape, dtype=arr.dtype, order="C")
+        out = base[tuple(slice(None, None, -1) for _ in arr.shape)]
+    else:
+        raise ValueError(layout)
+    out[...] = arr
+    if layout == "readonly_F":
+        out.setflags(write=False)
+    assert out.shape == arr.shape and out.dtype == arr.dtype and all(out[i] == arr[i] for i in box(arr.shape))
+    return out
+
+
 @contextlib.contextmanager
 def spy(name, store):
     """Record the matrix handed to np.linalg.<name> (the kernel boundary)."""
@@ -145,7 +185,12 @@ class C11(Prop):
     id = "C11"
     title = "tensor QR/SVD for every bipartition and mode"
     design_ref = "DESIGN.md section 5 / C11"
-    rule = ("a case = (shape, ordered leg bipartition (q_legs, r_legs), entry kind, dtype, truncation parameters, leg container type); "
+    rule = ("a case = (shape, ordered leg bipartition (q_legs, r_legs), entry kind, dtype, truncation parameters, leg container type, memory "
+            "layout of the input array); layouts: row-major (half of the cases), column-major (owning / full axis reversal view / read-only), "
+            "axis-permuted view, strided view of a larger buffer, negative strides -- same shape and entries, the index-encoding tensors of the "
+            "tie are laid out the same way; every bipartition with the legs in natural or fully reversed order (the pure-regrouping paths) is "
+            "run with EVERY layout (quick: one shape each of order 2, 3; thorough: all fixed shapes of order 2..5) and a quarter of the sampled "
+            "bipartitions keep the natural leg order; "
             "orders 0..6, dimensions 1..5, all (n+1)! ordered bipartitions for every order <= 4 (quick: one shape at order 4; thorough: three, plus all 720 of one order-5 shape), sampled for orders 5, 6; a malformed "
             "stream (duplicate / missing / out-of-range legs) that both sides must reject. non-trivial = order >= 2 and size >= 2; "
             "distinct by case content")
@@ -181,13 +226,14 @@ class C11(Prop):
                    "KEEP with an empty second side is outside the property's quantifier (the code raises TypeError; the model returns None)"]
 
     # ---------------------------------------------------------------------------------
-    def _mk(self, rng, shape, ql, rl, content=None):
+    def _mk(self, rng, shape, ql, rl, content=None, layout=None):
         n = len(shape)
         if content is None:
             content = rng.choice(["normal", "normal", "normal", "lowrank", "lowrank", "int", "zero", "ones", "degenerate", "degenerate"])
         return {"kind": "split", "shape": list(shape), "ql": list(ql), "rl": list(rl),
                 "content": content, "cplx": rng.random() < 0.6, "seed": rng.randrange(10 ** 6),
                 "as_list": rng.random() < 0.4,
+                "layout": layout if layout is not None else rng.choice(["C"] * 5 + LAYOUTS),
                 "trunc": {"max_bond_dim": rng.choice([1, 2, 3, 100]), "rel_tol": rng.choice([1e-12, 0.05, 0.3]),
                           "total_tol": rng.choice([1e-12, 0.2, 1.0])}}
 
@@ -199,7 +245,8 @@ class C11(Prop):
 
     def _rand_bip(self, rng, n):
         legs = list(range(n))
-        rng.shuffle(legs)
+        if rng.random() >= 0.25:      # a quarter of the sampled bipartitions keep the legs in natural order
+            rng.shuffle(legs)
         k = rng.choice([0, n] + list(range(n + 1)) * 3) if n else 0
         return legs[:k], legs[k:]
 
@@ -217,6 +264,11 @@ class C11(Prop):
                 for sh in shapes:
                     for ql, rl in self._all_bipartitions(n):
                         cases.append(self._mk(rng, sh, ql, rl))
+                        if n >= 2 and (th or (n <= 3 and sh == fixed[n][0])) and (ql + rl == sorted(ql + rl) or ql + rl == sorted(ql + rl, reverse=True)):
+                            # legs already grouped in natural (or fully reversed) order: the matricisation is then a pure
+                            # regrouping of the memory for a row-major (column-major) tensor -- every memory layout
+                            for lay in LAYOUTS[1:]:
+                                cases.append(self._mk(rng, sh, ql, rl, content="normal", layout=lay))
         nsample = {4: ctx.scale(20, 200), 5: ctx.scale(30, 400), 6: ctx.scale(10, 300)}
         for n, cnt in nsample.items():
             for _ in range(cnt * budget_scale):
@@ -282,6 +334,9 @@ class C11(Prop):
             if x["ql"] + x["rl"] != sorted(x["ql"] + x["rl"]):
                 c["legs_permuted"] += 1
             c["legs_as:" + ("list" if x["as_list"] else "tuple")] += 1
+            c["layout:" + x.get("layout", "C")] += 1
+            if x["ql"] + x["rl"] == sorted(x["ql"] + x["rl"]) and len(sh) >= 2:
+                c["legs_natural_order:" + ("row_major" if x.get("layout", "C") == "C" else "other_layout")] += 1
         return dict(c)
 
     # ---------------------------------------------------------------------------------
@@ -293,7 +348,8 @@ class C11(Prop):
         ql, rl = conv(case["ql"]), conv(case["rl"])
         ob = {}
         # -- index maps on the index-encoding tensor
-        enc = enc_tensor(shape)
+        lay = case.get("layout", "C")
+        enc = with_layout(enc_tensor(shape), lay, case["seed"])
         try:
             mat = tu.tensor_matricization(enc, tuple(case["ql"]), tuple(case["rl"]))
             ob["mat"] = [list(mat.shape), entries(mat)]
@@ -306,9 +362,11 @@ class C11(Prop):
         except Exception as e:  # noqa
             ob["tr"] = None
             ob["tr_exc"] = exc_str(e)
-        encf = enc.astype(float)
-        t = make_tensor(case)
-        ob["t"] = t
+        encf = with_layout(enc_tensor(shape).astype(float), lay, case["seed"])
+        # the reference copy is generated separately from the (re-laid-out) array handed to the library
+        ob["t"] = make_tensor(case)
+        t = with_layout(make_tensor(case), lay, case["seed"])
+        ob["flags"] = [bool(t.flags.c_contiguous), bool(t.flags.f_contiguous)]
         ob["qr"] = {}
         ob["svd"] = {}
         for md in MODES:
